@@ -202,6 +202,9 @@ class Intrinsics:
         def choice(eng, st, fr, args, ins):
             nm = name_of(eng, st, args[0])
             n = eng.need_int(st, args[1], ins.get("pos"), "verifChoice arity")
+            if n == 0:
+                st.status = "dead"      # no alternative: like verifAssume(false)
+                return 0
             if nm in eng.choice_fix:
                 v = eng.choice_fix[nm]
                 if v >= n:
@@ -222,6 +225,9 @@ class Intrinsics:
                 st.choices = st.choices + (v,)
                 st.nondet.append((nm, v, 64))
                 return v
+            if eng.opts.get("choice_exact"):
+                st.status = "dead"      # this job covers only the path(s) that make exactly the prescribed choices
+                return 0
             items = []
             base = st.choices
             for i in range(n):
